@@ -46,6 +46,11 @@ Documented staleness encoded here (and nowhere else):
      warning and does not proceed with that operation.
   S6 expire / refresh are only generated at clean points (after a flush), because
      expiring discards pending changes by design.
+  S7 a backref does not emit SQL to find the old parent of a re-parented child: the
+     reverse many-to-one is loaded before re-parenting.
+  S8 a SAVEPOINT rollback expires only objects *modified* inside it (documented); what an
+     unmodified object loaded or refreshed while the savepoint was open keeps the
+     savepoint-era value.  C33 excludes exactly those (object, attribute) pairs.
 """
 from __future__ import annotations
 
@@ -297,7 +302,19 @@ class Zoo:
             for c in (Parent, Child, Owner, Item, Node, CycA, CycB, Left, Right, Art, Tag, ArtTag,
                       Employee, Vehicle, NUser, NAddr, Vertex):
                 event.listen(c, name, self._mk_hook(name), propagate=True)
+        self.on_reload = None   # callable(obj): an instance was loaded / refreshed / expired
+        for name in ("load", "refresh", "expire"):
+            for c in (Parent, Child, Owner, Item, Node, CycA, CycB, Left, Right, Art, Tag, ArtTag,
+                      Employee, Vehicle, NUser, NAddr, Vertex):
+                event.listen(c, name, self._mk_reload(), propagate=True)
         self._info = {}
+
+    def _mk_reload(self):
+        def hook(target, *a):
+            cb = self.on_reload
+            if cb is not None:
+                cb(target)
+        return hook
 
     def _mk_hook(self, name):
         def hook(mapper, connection, target):
@@ -421,6 +438,8 @@ class Rig:
         for name in ("before_flush", "after_flush", "after_flush_postexec"):
             event.listen(self.session, name, self._mk_session_hook(name))
         zoo.on_hook = self._hook
+        self.reload_log = []    # id(obj) per load / refresh / expire instance event, in order
+        zoo.on_reload = lambda o: self.reload_log.append(id(o))
 
     # -- hooks -------------------------------------------------------------
     def _hook(self, name):
@@ -489,6 +508,7 @@ class Rig:
 
     def close(self):
         self.zoo.on_hook = None
+        self.zoo.on_reload = None
         try:
             self.session.close()
         except Exception:
@@ -627,10 +647,20 @@ class Finding:
         self.detail = detail
 
 
-def relation(rig, snap, reader, counters=None):
+def relation(rig, snap, reader, counters=None, exclude=None):
     """Judge a snapshot against rows.  Returns a list of Finding; ``counters`` (a dict) is
-    incremented with what was actually compared."""
+    incremented with what was actually compared.  ``exclude`` is a set of
+    (id(obj), attribute key) that must not be compared (S8, see C33)."""
     zoo = rig.zoo
+    if exclude:
+        snap = dict(snap)
+        for oid, e in list(snap.items()):
+            ks = {k for (i, k) in exclude if i == oid}
+            if ks:
+                e = dict(e)
+                for part in ("cols", "comp", "m2o", "coll"):
+                    e[part] = {k: v for k, v in e[part].items() if k not in ks}
+                snap[oid] = e
     cnt = counters if counters is not None else {}
 
     def bump(k, n=1):
